@@ -368,6 +368,53 @@ theorem spec_accepts_concrete (p : Packet) (hwf : WF p = true)
 
 example : WF exP = true ∧ optAll FltLits exP.data = true := by decide
 
+/-! ## 7b. the wire format is unambiguous
+
+A consequence of the round trip that the receiver relies on: no two well-formed packets that differ
+(after namespace normalisation) are ever sent as the same frames — whatever the receiver rebuilds
+is what the sender meant. -/
+
+/-- Two well-formed packets whose encodings (text frame and attachment list) coincide are the
+    same packet up to namespace normalisation. -/
+theorem encode_unambiguous {cls : Char → DC} (hcls : AsciiCls cls) (p q : Packet)
+    (hp : WF p = true) (hq : WF q = true)
+    (hfp : optAll FltLits p.data = true) (hfq : optAll FltLits q.data = true)
+    (he : encode J.dumps p = encode J.dumps q) : p.norm = q.norm := by
+  have rp := roundtrip_concrete hcls p hp hfp
+  have rq := roundtrip_concrete hcls q hq hfq
+  simp only [he] at rp
+  obtain ⟨dp, fp⟩ := rp
+  obtain ⟨dq, fq⟩ := rq
+  have hw : p.wire = q.wire := by
+    have := dp.symm.trans dq
+    injection this with this
+    exact (Prod.mk.inj this).1
+  rw [hw, fq] at fp
+  injection fp with fp
+  by_cases ha : (encode J.dumps q).2.getD [] = []
+  · simp only [ha, if_true] at fp
+    injection fp with fp
+    injection fp with fp
+    exact fp.symm
+  · simp only [ha, if_false] at fp
+    injection fp with fp
+    exact fp.symm
+
+/-- contrapositive, in the form a reader of the wire uses it: different packets, different frames -/
+theorem encode_distinguishes {cls : Char → DC} (hcls : AsciiCls cls) (p q : Packet)
+    (hp : WF p = true) (hq : WF q = true)
+    (hfp : optAll FltLits p.data = true) (hfq : optAll FltLits q.data = true)
+    (hne : p.norm ≠ q.norm) : encode J.dumps p ≠ encode J.dumps q :=
+  fun he => hne (encode_unambiguous hcls p q hp hq hfp hfq he)
+
+/-- non-vacuity: `exP` and the same packet with another ack id meet the hypotheses and differ -/
+example : WF exP = true ∧ WF ⟨exP.type, exP.nsp, some 13, exP.data⟩ = true ∧
+    optAll FltLits exP.data = true ∧
+    exP.norm ≠ (⟨exP.type, exP.nsp, some 13, exP.data⟩ : Packet).norm := by
+  refine ⟨by decide, by decide, by decide, fun h => ?_⟩
+  have := congrArg Packet.id h
+  revert this; decide
+
 /-! ## 8. the domain boundary (informational; DESIGN §5 C01)
 
 A bare number as the top-level payload is outside the quantifier (`TopOK`): it is
